@@ -209,7 +209,7 @@ func WorkerMain(args []string) int {
 	if b, ok := p.(CaseBudgeter); ok {
 		budget = b.CaseBudget(tier)
 	}
-	cases := p.Cases(tier, seed)
+	cases := filterCases(p.Cases(tier, seed))
 	w := NewWorker(tier, seed)
 	defer w.Close()
 	for _, c := range cases {
@@ -412,7 +412,7 @@ func Drive(propID, tier string) int {
 		return 2
 	}
 	seed := EnvSeed()
-	cases := p.Cases(tier, seed)
+	cases := filterCases(p.Cases(tier, seed))
 	if len(cases) == 0 {
 		fmt.Fprintln(os.Stderr, "no cases")
 		return 2
@@ -936,3 +936,19 @@ func ReplayMain(path string) int {
 
 // Commands holds extra sub-commands registered by property packages.
 var Commands = map[string]func(args []string) int{}
+
+// filterCases: VERIF_CASE_FILTER=<substring of the case id> restricts a run to matching cases
+// (debugging aid; never set by the registered commands).
+func filterCases(cs []Case) []Case {
+	f := os.Getenv("VERIF_CASE_FILTER")
+	if f == "" {
+		return cs
+	}
+	var out []Case
+	for _, c := range cs {
+		if strings.Contains(c.ID, f) {
+			out = append(out, c)
+		}
+	}
+	return out
+}
